@@ -116,7 +116,12 @@ Definition os_pwrite (fd : option nat) (o : os) (off : nat) (buf : list byte) : 
   end.
 
 (* ---- acquire-core-platform/linux/platform.c ---- *)
-(* file_create: returns the new state, the return value, and the number left in file->fid *)
+(* file_create: returns the new state, the return value, and the number left in file->fid.
+     file->fid = open(..O_CREAT..); if (fid < 0) fail;
+     if (flock(fid) < 0) { close(fid); fail }
+     if (ftruncate(fid, 0) < 0) { close(fid); fail }      -- drops the old contents of an existing file
+   ftruncate is not interposed by the check and is taken to succeed on a descriptor that was just opened read-write
+   (stated assumption); it is not an event of the log. *)
 Definition file_create (o : os) (p : path) : os * bool * option nat :=
   let k := nopen o in
   match os_open o p with
@@ -124,7 +129,8 @@ Definition file_create (o : os) (p : path) : os * bool * option nat :=
   | (o1, Some fd) =>
     match cscr o k with
     | CFailLock => (bump_fail (os_close (log o1 (ELock fd false)) (Some fd)), false, Some fd)
-    | _ => (log o1 (ELock fd true), true, Some fd)
+    | _ => let o2 := log o1 (ELock fd true) in
+           (set_fs o2 (upd (fs o2) p (Some [])), true, Some fd)
     end
   end.
 
